@@ -386,10 +386,14 @@ def main(argv):
                 violations.append(("build", "cargo build of %s failed: %s" % (job["needs_repo_bins"], rout[-400:]), None))
                 continue
             env["VERIF_BINDIR"] = bindir
-        outp = os.path.join(work, "%s_%s.jsonl" % (job["cmd"].replace(" ", "_"), flavour))
-        cmd = [bins[flavour]] + job["cmd"].split() + ["--seed", str(seed), "--tier", tier, "--out", outp]
-        if replay and job.get("replayable"):
-            cmd += ["--replay", replay]
+        outp = os.path.join(work, "%s_%s.jsonl" % (job["cmd"].replace(" ", "_").replace("/", "_"), flavour))
+        if job.get("script"):
+            # a job driven by a script: <script> <harness binary> <workdir> <tier> <seed> <out.jsonl>
+            cmd = [sys.executable, os.path.join(VERIF, job["script"]), bins[flavour], os.path.join(work, "job_" + job["cmd"]), tier, str(seed), outp]
+        else:
+            cmd = [bins[flavour]] + job["cmd"].split() + ["--seed", str(seed), "--tier", tier, "--out", outp]
+            if replay and job.get("replayable"):
+                cmd += ["--replay", replay]
         rc, hout, dth = run(cmd, timeout=job.get("timeout", 3000), env=env, cwd=work)
         log("harness %s (%s): rc=%d (%.0fs)" % (job["cmd"], flavour, rc, dth))
         if rc != 0:
@@ -424,6 +428,12 @@ def main(argv):
                 if c.get("args"):
                     s["args_head"] = json.dumps(c["args"])[:300]
                 samples.append(s)
+            if c.get("model_agrees") is True:
+                traces_validated += 1
+            elif c.get("model_agrees") is False:
+                disagreements.append({"id": c["id"], "why": "model and implementation differ: " + c.get("model_detail", ""),
+                                      "flavour": flavour, "oracle_ok": c["oracle_ok"], "known": c.get("known"),
+                                      "input": {"fn": job["cmd"], "args": None, "meta": c["meta"]}})
             if not c["oracle_ok"]:
                 kn = c.get("known")
                 oracle_failures.append({"id": c["id"], "msg": c["oracle_msg"], "flavour": flavour, "known": kn,
